@@ -103,8 +103,8 @@ def run(tier="quick", seed=0):
     pr = PropertyRun("C13", tier, seed)
     thorough = tier == "thorough"
     pr.model_check("MCGeomTarget", workers=16, timeout=900)
-    jobs = [{"seed": seed * 1000 + j, "nconf": 12 if thorough else 3, "ninst": 400 if thorough else 150,
-             "long_sky": (9000 if thorough else 4500) if j < (4 if thorough else 2) else 0} for j in range(28 if thorough else 14)]
+    jobs = [{"seed": seed * 1000 + j, "nconf": 20 if thorough else 3, "ninst": 400 if thorough else 150,
+             "long_sky": (9000 if thorough else 4500) if j < (4 if thorough else 2) else 0} for j in range(42 if thorough else 14)]
     res = par.pmap(one_config, jobs, workers=14)
     ev = [e for r in res for e in r]
     pr.validate("TraceGeomTarget", ev, name="target-geometry", chunks=16)
